@@ -325,3 +325,49 @@ def shard(S, p):
     part_absurd(S, p)
     part_samples(S, p)
     part_hostile(S, p)
+
+
+def post(total, tier, seed):
+    """Thorough: corpora (3)-(6) again under an AddressSanitizer binary; 300 hostile inputs through the harness under Miri."""
+    if tier != "thorough" and not os.environ.get("VERIF_SANITIZERS"):
+        return {"sanitizers": {"asan": "not run in quick tier", "miri": "not run in quick tier"}}
+    from .. import sanitize
+    files, payloads = seed_files()
+    cases = []
+    k = 0
+    for name, (kind, data) in files.items():
+        for off in range(len(data)):
+            for si, f in enumerate(SUBST):
+                nb = f(data[off])
+                k += 1
+                if nb != data[off] and k % 5 == seed % 5:
+                    args = ["create"] if kind == "create" else [["view"], ["stat", "-s", "sum,s"], ["fold"]][k % 3]
+                    cases.append((args, data[:off] + bytes([nb]) + data[off + 1:]))
+    for name, payload in payloads.items():
+        for off in range(0, len(payload), 3):
+            cases.append((["create", "-t", "2"], vcfgen.bgzf(payload[:off] + bytes([payload[off] ^ 0x80]) + payload[off + 1:], [len(payload) // 2])))
+    for s_ in (b"", b"#SH", b"\x93NUMPY\x01", b"\x1f\x8b", b"BCF\x02\x02"):
+        for sub in (["create"], ["view"], ["fold"], ["stat", "-s", "sum"]):
+            cases.append((sub, s_))
+    out = {"asan": sanitize.asan_pass(total, cases, "hostile", "C17")}
+    # Miri: hostile bytes through the library (format sniffing, BGZF, VCF/BCF parse, npy/text parse)
+    rng = rng_for(seed, "c17-miri")
+    reqs = []
+    for name in ("vcf-min", "rawbcf", "vcf.gz", "bcf"):
+        kind, data = files[name]
+        for _ in range(50):
+            off = rng.randrange(len(data))
+            d = data[:off] + bytes([rng.choice(SUBST)(data[off])]) + data[off + 1:]
+            reqs.append({"op": "create", "data": d.hex(), "map": None, "project": None, "threads": rng.choice([1, 2]), "mode": "scs"})
+    for name in ("npy", "npy-v2-i2"):
+        kind, data = files[name]
+        for _ in range(50):
+            off = rng.randrange(len(data))
+            reqs.append({"op": "read_npy", "data": (data[:off] + bytes([rng.choice(SUBST)(data[off])]) + data[off + 1:]).hex(), "chunks": [rng.randint(1, 40)], "rest": rng.randint(1, 9)})
+    # native run under a 160 MiB address-space cap: a corrupted length field that asks for gigabytes dies here (alloc failure)
+    # and is left out - Miri would spend hours zeroing such a buffer; so are native panics inside dependencies (known
+    # findings), which would abort the Miri process
+    native = harness.run_all([dict(r) for r in reqs], mem_limit=160 << 20)
+    keep = [i for i, r in enumerate(native) if "panic" not in r and not r.get("died") and not r.get("thread_panic")]
+    out["miri"] = sanitize.miri_pass(total, [reqs[i] for i in keep], "hostile", "C17", expect=[native[i] for i in keep])
+    return {"sanitizers": out}
